@@ -480,6 +480,45 @@ def _isinstance_unions(tree: ast.Module) -> int:
     return n_done
 
 
+def _isinstance_named_tuples(tree: ast.Module) -> int:
+    """`kinds = (A, B, C)` ... `isinstance(x, kinds)`  ->  `isinstance(x, (A, B, C))` for a name bound exactly once (in the
+    function, or at module level and not shadowed) to a tuple of class references."""
+    n_done = 0
+
+    def class_tuple(v):
+        return isinstance(v, ast.Tuple) and v.elts and all(isinstance(e, (ast.Name, ast.Attribute)) for e in v.elts)
+
+    def single_tuples(body_owner, walker):
+        binds = {}
+        for n in walker:
+            if isinstance(n, ast.Assign) and len(n.targets) == 1 and isinstance(n.targets[0], ast.Name):
+                binds.setdefault(n.targets[0].id, []).append(n.value)
+            elif isinstance(n, (ast.AnnAssign, ast.AugAssign)) and isinstance(n.target, ast.Name):
+                binds.setdefault(n.target.id, []).append(getattr(n, "value", None))
+            elif isinstance(n, (ast.For, ast.comprehension)):
+                for x in ast.walk(n.target):
+                    if isinstance(x, ast.Name):
+                        binds.setdefault(x.id, []).append(None)
+            elif isinstance(n, ast.arg):
+                binds.setdefault(n.arg, []).append(None)
+        return {k: v[0] for k, v in binds.items() if len(v) == 1 and v[0] is not None and class_tuple(v[0])}, set(binds)
+
+    mod_tuples, _ = single_tuples(tree, list(tree.body))
+    for fn in [n for n in ast.walk(tree) if isinstance(n, (ast.FunctionDef, ast.AsyncFunctionDef))]:
+        local, bound = single_tuples(fn, list(ast.walk(fn)))
+        table = {k: v for k, v in mod_tuples.items() if k not in bound}
+        table.update(local)
+        if not table:
+            continue
+        for c in ast.walk(fn):
+            if isinstance(c, ast.Call) and isinstance(c.func, ast.Name) and c.func.id in ("isinstance", "issubclass") and len(c.args) == 2 and isinstance(c.args[1], ast.Name) and c.args[1].id in table:
+                c.args[1] = ast.copy_location(ast.Tuple(elts=[_copy(e) for e in table[c.args[1].id].elts], ctx=ast.Load()), c.args[1])
+                for x in ast.walk(c.args[1]):
+                    ast.copy_location(x, c)
+                n_done += 1
+    return n_done
+
+
 def _dataclass_inits(tree: ast.Module) -> int:
     """A @dataclass without a hand-written __init__ gets the one the decorator generates, spelled out: one parameter and
     one `self.f = f` per annotated field (ClassVar and init=False fields excepted), followed by the statements of
@@ -628,6 +667,7 @@ def desugar(tree: ast.Module, rel=None) -> ast.Module:
     n_stack += _inline_new_constants(tree, rel) if rel is not None else 0
     n_stack += _inline_contextmanagers(tree)
     n_stack += _isinstance_unions(tree)
+    n_stack += _isinstance_named_tuples(tree)
     n_stack += _dataclass_inits(tree)
     n_alias = _unalias_bound_methods(tree)
     if d.n_match or d.n_walrus or n_alias or n_stack:
